@@ -2111,3 +2111,29 @@ Proof.
            (mkopt "num" (Some "n") 520 VNone) (S_ "vq") 110%N (T [""; "7"])); [vm_compute; tauto|reflexivity..].
 Qed.
 Close Scope string_scope.
+
+(* ---- the lenient counterpart of each clause: the same line does not end in that parse error ---- *)
+Section Lenient.
+  Context (f f' : fmt) (ar : list (str * arg)) (cns : list (str * cname)).
+  Hypothesis Haug : aug_format f = Ok (f', ar, cns).
+  Hypothesis Hok : opts_ok f'.
+  Let never := fun toks => lenient_no_parse_error f f' ar cns toks Haug Hok.
+
+  Theorem unknown_long_option_lenient pre body rest : parse f true (pre ++ long_tok body :: rest) <> Err NoSuchOption.
+  Proof. apply never. Qed.
+  Theorem unknown_short_option_lenient pre body rest : parse f true (pre ++ short_tok body :: rest) <> Err NoSuchOption.
+  Proof. apply never. Qed.
+  Theorem unknown_option_lenient pre body rest :
+    parse f true (pre ++ long_tok body :: rest) <> Err NoSuchOption /\ parse f true (pre ++ short_tok body :: rest) <> Err NoSuchOption.
+  Proof. split; apply never. Qed.
+  Theorem flag_given_value_lenient pre name value rest :
+    parse f true (pre ++ long_tok (name ++ EQ :: value) :: rest) <> Err CannotParse.
+  Proof. apply never. Qed.
+  Theorem option_value_missing_lenient pre body rest :
+    parse f true (pre ++ long_tok body :: rest) <> Err CannotParse /\ parse f true (pre ++ short_tok body :: rest) <> Err CannotParse.
+  Proof. split; apply never. Qed.
+  Theorem missing_argument_lenient toks : parse f true toks <> Err CannotParse.
+  Proof. apply never. Qed.
+  Theorem too_many_positionals_lenient pre tok rest : parse f true (pre ++ tok :: rest) <> Err CannotParse.
+  Proof. apply never. Qed.
+End Lenient.
